@@ -116,6 +116,9 @@ def _call_operator_conelp(inst):
         return e
 
 
+LOOSE_RETRY = {'feastol': 1e-5, 'abstol': 1e-5, 'reltol': 1e-4}
+
+
 def _summ(res):
     if isinstance(res, Exception):
         return ('exc:' + type(res).__name__, None)
@@ -137,19 +140,36 @@ def run(case):
     outcomes = {}
     n_ev = nontriv = 0
 
-    def compare(name, got, base, scale_back=1.0, key_entry='conelp'):
+    def compare(name, got, base, scale_back=1.0, key_entry='conelp', retry=None):
         nonlocal n_ev, nontriv
         n_ev += 1
         st, val = got[0], got[1]
         near = len(got) > 2
+        if st != base[0] and retry is not None:
+            # classify the failure: does the same presentation reach the base answer at 100x looser tolerances?  Then its
+            # linear algebra ran out of accuracy before the default tolerances (a robustness finding about that KKT
+            # solver), which is a different defect from a presentation that computes a different answer.
+            again = _summ(retry())
+            if again[0] == base[0] and (base[0] != 'optimal' or
+                                        abs(again[1] / scale_back - base[1]) <= 1e-3 * max(1.0, abs(base[1]))):
+                O.bad('status-differs:%s:accuracy-limited@%s' % (name, key_entry),
+                      'presentation %s gives %r at the default tolerances (base presentation %r) and the base answer only '
+                      'with feastol/abstol 1e-5, reltol 1e-4' % (name, st, base[0]))
+                outcomes[st] = outcomes.get(st, 0) + 1
+                return
         outcomes[st + ('(unknown within 1e-5)' if near else '')] = outcomes.get(st + ('(unknown within 1e-5)' if near else ''), 0) + 1
         if st != base[0]:
-            O.bad('status-differs:%s@%s' % (name, key_entry), 'presentation %s gives %r, base presentation gives %r' % (name, st, base[0]))
+            # the key names the exception class so that a recorded finding about one failure mode cannot hide another
+            O.bad('status-differs:%s%s@%s' % (name, '->' + st if st.startswith('exc:') else '', key_entry),
+                  'presentation %s gives %r, base presentation gives %r' % (name, st, base[0]))
             return
         if st == 'optimal':
             nontriv += 1
             v = val / scale_back
-            if abs(v - base[1]) > (1e-4 if near else 1e-6) * max(1.0, abs(base[1])):
+            # each presentation only guarantees its own gap <= max(abstol, reltol*|cost|) (1e-6 relative by default; the
+            # back-ends and the near-optimal escape 1e-5): two of them may differ by the sum of their guarantees
+            loose = near or any(t in name for t in ('dsdp', 'glpk'))
+            if abs(v - base[1]) > (2e-4 if loose else 1e-5) * max(1.0, abs(base[1])):
                 O.bad('objective-differs:%s@%s' % (name, key_entry), 'presentation %s gives optimal value %.10g, base presentation %.10g'
                       % (name, v, base[1]))
 
@@ -210,7 +230,10 @@ def run(case):
                 n_ev += 1
                 outcomes['dsdp-unknown'] = outcomes.get('dsdp-unknown', 0) + 1
                 continue
-            compare(name, got, base, sc)
+            retry = None
+            if not cfg.get('solver') and not cfg.get('opts'):
+                retry = (lambda ins=ins, cfg=cfg: solve.call(ins, dict(cfg, opts=LOOSE_RETRY))[0])
+            compare(name, got, base, sc, retry=retry)
             for v in O.viol[nv:]:
                 v['sub'] = {'instance': {k: ins[k] for k in ('c', 'G', 'h', 'dims', 'A', 'b')}, 'cfg': cfg}
         nv = len(O.viol)
